@@ -535,6 +535,7 @@ func (c *c07) Run(cs core.Case) core.Result {
 		for _, lm := range []lim{
 			{"cauchy", 65534, 1, true}, {"cauchy", 65535, 1, false}, {"cauchy", 1, 65534, true}, {"cauchy", 1, 65535, false}, {"cauchy", 40000, 25536, false},
 			{"vandermonde", 32768, 1, true}, {"vandermonde", 32769, 1, false}, {"vandermonde", 1, 65535, true}, {"vandermonde", 1, 65536, false}, {"vandermonde", 32768, 2, true},
+			{"vandermonde", 4, 65535, true}, {"vandermonde", 7, 40000, true}, {"cauchy", 4, 65000, true},
 		} {
 			var coder rsec16.Coder
 			var err error
@@ -560,6 +561,10 @@ func (c *c07) Run(cs core.Case) core.Result {
 			c.trial(r, lm.kind, coder, lm.d, lm.p, 2, data, parity, miss, avail, false)
 			if lm.d > 1 {
 				c.trial(r, lm.kind, coder, lm.d, lm.p, 2, data, parity, []int{0, lm.d - 1}, avail, false)
+				if lm.p > 2 {
+					// two lost, only the two highest-numbered parity shards left
+					c.trial(r, lm.kind, coder, lm.d, lm.p, 2, data, parity, []int{0, lm.d - 1}, []int{lm.p - 2, lm.p - 1}, false)
+				}
 			}
 		}
 		r.Sample(map[string]interface{}{"mode": "limits", "cases": "cauchy d+p=65535/65536, vandermonde d=32768/32769, p=65535/65536"})
